@@ -20,7 +20,8 @@ INTCOLS = ('Step', 'Atoms')
 
 
 def val(col, code):
-    return int(code) if col in INTCOLS else code / 4.0
+    # float columns are of order 1e5 with a fractional part that is small against them (a relative comparison would not see it)
+    return int(code) if col in INTCOLS else 131072 + code / 4.0
 
 
 def first_steps(runs):
